@@ -691,11 +691,8 @@ func rulePopMode(w *World, r *Report, pfx string, fi *flushInfo) {
 			okPrio := len(prioStores) == 1 && isLoad(Val{V: stripConv(prioStores[0].Val.V)}, tPState, "popPriority")
 			okInc := false
 			if len(popPrioStores) == 1 {
-				if add, ok := popPrioStores[0].Val.V.(*ssa.BinOp); ok && add.Op == token.ADD {
-					k, isK := constInt(add.Y)
-					if isK && k == 1 && isLoad(Val{V: add.X}, tPState, "popPriority") {
-						okInc = true
-					}
+				if incrOf(popPrioStores[0].Val.V, tPState, "popPriority") {
+					okInc = true
 				}
 			}
 			if !okPrio {
